@@ -6,6 +6,7 @@ import (
 	"time"
 
 	"github.com/pion/ice/v4"
+	"github.com/pion/stun/v3"
 
 	"verif/sim/core"
 	"verif/sim/rig"
@@ -141,9 +142,19 @@ type c01Session struct {
 	// noOracles turns the C01 oracles off (other checks reuse the session driver).
 	noOracles bool
 	// hook runs after every step of the fault phase and the fair suffix.
-	hook func(phase string)
-	// maxSuffix bounds the fair suffix when oracles are off.
-	genStart time.Duration
+	hook     func(phase string)
+	anyBidir bool
+	// prefix of violation classes (property id of the check that reuses the session driver)
+	prefix string
+	// sameRole starts both agents in the same role ("controlling"/"controlled"); "" = opposite roles.
+	sameRole string
+}
+
+func (s *c01Session) pfx() string {
+	if s.prefix == "" {
+		return "C01"
+	}
+	return s.prefix
 }
 
 // candidate addresses currently gathered on each side
@@ -204,15 +215,15 @@ func (s *c01Session) checkSafety(anyBidir bool) {
 		st := ag.LastState()
 		if !anyBidir {
 			if ok {
-				c.Failf("C01/selected-without-bidirectional-pair", "%s selected %v->%v although no pair is reachable both ways", ag.Name, l, r)
+				c.Failf(s.pfx()+"/selected-without-bidirectional-pair", "%s selected %v->%v although no pair is reachable both ways", ag.Name, l, r)
 			}
 			if st == ice.ConnectionStateConnected {
-				c.Failf("C01/connected-without-bidirectional-pair", "%s reported Connected although no pair is reachable both ways", ag.Name)
+				c.Failf(s.pfx()+"/connected-without-bidirectional-pair", "%s reported Connected although no pair is reachable both ways", ag.Name)
 			}
 			continue
 		}
 		if ok && !d.Bidirectional(l.Addr(), r.Addr()) {
-			c.Failf("C01/selected-unreachable-pair", "%s selected %v->%v which is not reachable in both directions", ag.Name, l, r)
+			c.Failf(s.pfx()+"/selected-unreachable-pair", "%s selected %v->%v which is not reachable in both directions", ag.Name, l, r)
 		}
 	}
 }
@@ -228,7 +239,11 @@ func (s *c01Session) stateKey() string {
 func (s *c01Session) generation(gen int) {
 	d, c, k := s.d, s.c, s.k
 	s.gen = gen
+	d.W.Lock()
+	wireSeen := len(d.Wire)
+	d.W.Unlock()
 	anyBidir := s.drawMatrix()
+	s.anyBidir = anyBidir
 
 	// Signalling: Start*/SetRemoteCredentials and candidates are pending actions; either all at once
 	// (tape-chosen order) or trickled during the fault phase. The retry-budget clock starts now, so
@@ -243,14 +258,18 @@ func (s *c01Session) generation(gen int) {
 			var err error
 			if controlling {
 				c.Logf("start A gen=%d", gen)
-				if gen == 0 {
+				if gen == 0 && s.sameRole == "controlled" {
+					d.A.Conn, err = d.A.A.StartAccept(d.B.Ufrag, d.B.Pwd)
+				} else if gen == 0 {
 					d.A.Conn, err = d.A.A.StartDial(d.B.Ufrag, d.B.Pwd)
 				} else {
 					err = d.A.A.SetRemoteCredentials(d.B.Ufrag, d.B.Pwd)
 				}
 			} else {
 				c.Logf("start B gen=%d", gen)
-				if gen == 0 {
+				if gen == 0 && s.sameRole == "controlling" {
+					d.B.Conn, err = d.B.A.StartDial(d.A.Ufrag, d.A.Pwd)
+				} else if gen == 0 {
 					d.B.Conn, err = d.B.A.StartAccept(d.A.Ufrag, d.A.Pwd)
 				} else {
 					err = d.B.A.SetRemoteCredentials(d.A.Ufrag, d.A.Pwd)
@@ -303,7 +322,32 @@ func (s *c01Session) generation(gen int) {
 	budget := time.Duration(k.maxReq-2) * k.checkInterval
 	faultEnd := checkingStart + budget
 	steps := 0
-	for c.Now() < faultEnd && steps < 1500 && !c.Failed() {
+	// The retry budget is per pair and counted in requests: candidate arrivals trigger extra check
+	// rounds, so the fault phase also ends as soon as any pair has used maxReq-2 of its requests.
+	reqCount := map[[2]netip.AddrPort]int{}
+	budgetLeft := func() bool {
+		d.W.Lock()
+		wire := d.Wire[wireSeen:]
+		wireSeen = len(d.Wire)
+		d.W.Unlock()
+		ok := true
+		for _, w := range wire {
+			if w.D.SockID < 0 || w.D.Dup {
+				continue
+			}
+			if m := w.Msg(); m.IsSTUN && m.Class == stun.ClassRequest {
+				k := [2]netip.AddrPort{w.D.Src, w.D.Dst}
+				reqCount[k]++
+			}
+		}
+		for _, n := range reqCount {
+			if n >= k.maxReq-2 {
+				ok = false
+			}
+		}
+		return ok
+	}
+	for c.Now() < faultEnd && steps < 1500 && !c.Failed() && budgetLeft() {
 		steps++
 		if len(pend) > 0 && c.T.Bias(1, 6, "signalnow") {
 			doOne(c.T.Choose(len(pend), "whichsignal"))
@@ -373,11 +417,11 @@ func (s *c01Session) generation(gen int) {
 	}
 	if anyBidir {
 		if sawFailed() {
-			c.Failf("C01/failed-despite-bidirectional-pair", "an agent reported Failed although a pair is reachable both ways (A=%v B=%v)", d.A.StateSeq(), d.B.StateSeq())
+			c.Failf(s.pfx()+"/failed-despite-bidirectional-pair", "an agent reported Failed although a pair is reachable both ways (A=%v B=%v)", d.A.StateSeq(), d.B.StateSeq())
 			return
 		}
 		if !connected() {
-			c.Failf("C01/no-convergence", "not both Connected within the checking deadline after faults stopped: A=%s B=%s", d.A.LastState(), d.B.LastState())
+			c.Failf(s.pfx()+"/no-convergence", "not both Connected within the checking deadline after faults stopped: A=%s B=%s", d.A.LastState(), d.B.LastState())
 			return
 		}
 		// let things settle for a while (late nominations, keepalives), then mirror oracle
@@ -389,15 +433,15 @@ func (s *c01Session) generation(gen int) {
 		la, ra, oka := d.A.SelectedPair()
 		lb, rb, okb := d.B.SelectedPair()
 		if !oka || !okb {
-			c.Failf("C01/no-selected-pair", "Connected but selected pair missing: A=%v B=%v", oka, okb)
+			c.Failf(s.pfx()+"/no-selected-pair", "Connected but selected pair missing: A=%v B=%v", oka, okb)
 			return
 		}
 		if la != rb || ra != lb {
-			c.Failf("C01/mirror-mismatch", "selected pairs are not mirror images: A=%v->%v B=%v->%v", la, ra, lb, rb)
+			c.Failf(s.pfx()+"/mirror-mismatch", "selected pairs are not mirror images: A=%v->%v B=%v->%v", la, ra, lb, rb)
 			return
 		}
 		if !connected() {
-			c.Failf("C01/not-stable", "left Connected during a loss-free suffix: A=%s B=%s", d.A.LastState(), d.B.LastState())
+			c.Failf(s.pfx()+"/not-stable", "left Connected during a loss-free suffix: A=%s B=%s", d.A.LastState(), d.B.LastState())
 			return
 		}
 		c.Logf("converged A=%v->%v", la, ra)
